@@ -1110,6 +1110,30 @@ def case_rt_large(ctx, gtype, fmt, rseed):
                 judge_roundtrip(ctx, desc, gtype, fmt, channel, stage, st, val, text=text, fmts=fmts)
 
 
+def case_size_sweep(ctx, gtype, fmt, sizes):
+    """Sparse graphs of every order in a range (a fast path may begin at any unremarkable size): a path with a few chords
+    and an isolated last vertex, written and read back."""
+    ref.selfcheck()
+    r = ctx.rng("rtsweep", gtype, fmt, tuple(sizes[:2]))
+    with Scratch() as scratch:
+        for n in sizes:
+            if gtype == "bipartite":
+                L = n // 2
+                shape = (L, n - L)
+                edges = {(u, min(n - L, u)) for u in range(1, L + 1) if n - L >= 1} | {(u, 1 + (u * 3) % max(1, n - L)) for u in range(1, L + 1) if n - L >= 1}
+            else:
+                shape = (n,)
+                edges = {(u, u + 1) for u in range(1, n - 1)} | {(u, min(n - 1, u + 5)) for u in range(1, n - 6, 4)}
+                edges = {(u, v) for (u, v) in edges if u < v}
+            desc = desc_of(gtype, shape, sorted(edges))
+            order = sorted(edges)
+            r.shuffle(order)
+            G = build(desc, order=order)
+            stage, st, val, text, fmts = transport(ctx, G, gtype, fmt, "stringio", scratch, r)
+            ctx.count("size_sweep_roundtrips")
+            judge_roundtrip(ctx, desc, gtype, fmt, "stringio", stage, st, val, text=text, fmts=fmts)
+
+
 LOCALE_SCRIPT = r"""
 import json, os, sys, random
 sys.path.insert(0, sys.argv[1])
@@ -1196,6 +1220,14 @@ def workload(tier, seed):
     quick = tier == "quick"
     TYPES = ("simple", "digraph", "dag", "bipartite")
     yield "locale", {"rseed": seed}
+    for gtype in ("simple", "dag", "digraph", "bipartite"):
+        for fmt in {"simple": ["kthlist", "gml", "dimacs"], "digraph": ["kthlist", "gml", "dimacs"], "dag": ["kthlist", "gml", "dimacs"],
+                    "bipartite": ["kthlist", "gml", "matrix"]}[gtype]:
+            sweep = list(range(seed % 5, 420, 5)) if quick else list(range(0, 1300))
+            if fmt == "matrix":
+                sweep = [n for n in sweep if n <= 300]
+            for i in range(0, len(sweep), 45):
+                yield "size_sweep", {"gtype": gtype, "fmt": fmt, "sizes": sweep[i:i + 45]}
     for gtype in TYPES:
         for fmt in {"simple": ["kthlist", "gml", "dimacs"], "digraph": ["kthlist", "gml", "dimacs"], "dag": ["kthlist", "gml", "dimacs"],
                     "bipartite": ["kthlist", "gml", "matrix"]}[gtype] + ([] if quick else ["dot"]):
